@@ -19,7 +19,7 @@ PROPERTIES = {
     "C08": dict(t2=["c08"], inherits=[], level="other"),
     "C09": dict(t2=["c09"], inherits=["C20"], level="other"),
     "C10": dict(t2=["c10"], inherits=[], level="other"),
-    "C11": dict(t2=["c11"], inherits=[], level="other"),
+    "C11": dict(t2=["c11"], inherits=[], level="other", t1_all=True),
     "C12": dict(t2=["c12"], inherits=[], level="other"),
     "C13": dict(t2=["c13"], inherits=[], level="other"),
     "C14": dict(t2=["c14"], inherits=[], level="other"),
